@@ -96,4 +96,15 @@ var props = map[string]propCfg{
 		NotDecided: []string{"piRegAll's registration through closures stored in dictionaries (its keys are distinct by construction; read, not proved)", "the text of the non-exhaustive-match diagnostic names an order-dependent case (outside the statement: output files and the accept/reject decision)"},
 		Scans: []func(*run){scanNondeterminism},
 	},
+	"C06": {
+		Modules: []string{"fc"},
+		Decided: []string{
+			"L1 column invariant (newTkz, tkzNext, all byte strings): the column the offside rule compares is the byte offset of the token in its physical line - under the carve-out of known finding F9 (no newline inside the skipped region or the current token)",
+			"L2 (part): a SPACE token covers blanks and comments only as far as its extent/progress contract says; nextToken returns the first non-SPACE token at or after the end of the previous one",
+			"L3 offside primitives decide by comparing columns only: insideOffside = col >= top, isEndOfBlock <= col < top, psPushOffside panics iff top >= col and pushes exactly col, psPopOffside pops exactly one - so any strictly monotone re-indentation leaves every decision unchanged",
+			"L4 closed set: Tokenizer.col is read only by psCurCol and tkzNext, offsideCol only by the offside primitives and the parse-state constructors (scan)",
+		},
+		NotDecided: []string{"the grammar-level clauses (if on one line or several, right-hand side on the same or the next line, a pipeline broken before |>, blank lines and comments between statements): they are placements of psSkipEOL in thirty parser functions and need a relational proof of the whole parser; NOT decided"},
+		Scans: []func(*run){scanColumnReaders},
+	},
 }
